@@ -205,6 +205,35 @@ pub fn gen_rcv(r: &mut Rng, thorough: bool, cx: &mut Ctx) {
             emit_rcv(cx, link, &meta, &toks);
         }
     }
+    // long runs of consecutive undecodable / rejected whole frames (error counters kept across frames and polls), then the two probes
+    for link in 0..3u64 {
+        let runs: &[u64] = if thorough { &[8, 15, 16, 17, 31, 32, 33, 63, 64, 65, 100, 127, 128, 129, 200, 255, 256, 257, 300, 1000] } else { &[15, 16, 17, 32, 33, 64, 65, 100, 128, 129, 255, 256, 257, 300] };
+        for &n in runs {
+            for variant in 0..3u64 {
+                let mut toks = vec![];
+                for _ in 0..n {
+                    if link == 0 {
+                        match if variant == 2 { r.below(3) } else { variant } {
+                            0 => { toks.extend_from_slice(&[0, 0, 0, r.below(2048), 0, 0]); }                                       // standard id
+                            1 => { let dlc = r.below(9); toks.extend_from_slice(&[0, 1, 1, r.below(1 << 29), dlc, 0]); }            // remote
+                            _ => { toks.extend_from_slice(&[0, 1, 0, (1 << 26) | r.below(1 << 16), 0, 0]); }                        // multi-frame flag without the id byte
+                        }
+                    } else {
+                        match if variant == 2 { r.below(3) } else { variant } {
+                            0 => { toks.extend_from_slice(&[0, 0]); }                                                               // length byte 0
+                            1 => { let k = r.range(1, 4); toks.push(0); toks.push(k); for _ in 0..k { toks.push(1); } }             // valid COBS, body too short
+                            _ => { let k = r.range(2, 12); toks.push(0); toks.push(k); toks.push(k + 5); for _ in 1..k { toks.push(r.range(1, 255)); } }   // COBS run longer than the frame
+                        }
+                    }
+                }
+                let p1 = gen_packet(r, 5); let p2 = gen_packet(r, 20);
+                let np = toks.len();
+                packet_tokens(link, &p1, &mut toks); packet_tokens(link, &p2, &mut toks);
+                let mut meta = vec![count_tokens(link, &toks[np..])]; show_packet(&p1, &mut meta); show_packet(&p2, &mut meta);
+                emit_rcv(cx, link, &meta, &toks);
+            }
+        }
+    }
     // device read faults in the middle of link frames (outside C06's 'whole link frames'; C19 must still hold): meta is empty
     for link in 1..3u64 {
         for _ in 0..(if thorough { 3000 } else { 150 }) {
@@ -282,9 +311,13 @@ pub fn gen_lnk(r: &mut Rng, thorough: bool, cx: &mut Ctx) {
             let np = if long { r.range(1, 3) } else { r.range(1, 8) };
             let gaps: Vec<u64> = if long { if link == 1 { let mut g = vec![0u64; 23]; g[11] = 260; g } else { vec![0, 0, 260] } } else { match k % 6 { 0 => vec![], 1 => vec![1], 2 => vec![0, 0, 2], 3 => (0..r.range(1, 7)).map(|_| r.below(3)).collect(), 4 => vec![0, 0, 0, 0, 0, 0, 0, 5], _ => (0..r.range(1, 12)).map(|_| if r.chance(1, 4) { r.range(1, 4) } else { 0 }).collect() } };
             let mut l = vec![link, gaps.len() as u64]; l.extend(&gaps); l.push(np);
+            let mut prevp: Option<Packet> = None;
             for _ in 0..np {
                 let n = if long { r.range(0, 40) as usize } else { match r.below(8) { 0 => r.below(9) as usize, 1 => 8, 2 => 9, 3 => r.range(14, 15) as usize, 4 => r.range(200, 400) as usize, _ => r.range(0, 64) as usize } };
-                let p = gen_packet(r, n); show_packet(&p, &mut l);
+                let mut p = gen_packet(r, n);
+                // consecutive packets that are identical, or differ only in the error flag, or share the address
+                if let Some(q) = prevp.clone() { match r.below(10) { 0 | 1 => { p = q; } 2 => { p = q; p.is_error = !p.is_error; } 3 => { p.device_address = q.device_address; } _ => {} } }
+                show_packet(&p, &mut l); prevp = Some(p);
             }
             if k % 5 == 3 { l.push(1); }      // full duplex: the receiving node transmits before it polls
             cx.emit(&l);
